@@ -428,17 +428,76 @@ Proof.
     specialize (B1 _ H1). specialize (B2 _ H2). unfold start_in in B1. unfold stop_in in B2. lia.
 Qed.
 
+(* ---- repeated frames: the state-threading loop ------------------------------------------------------------------------------- *)
+Lemma loop_body_st_fst (rec_st : list Z -> list Z -> option Z -> res3) rec need_stop minlen L frame i1 starts' stops i2 :
+  (forall a b c, fst (rec_st a b c) = rec a b c) ->
+  fst (loop_body_st rec_st need_stop minlen L frame i1 starts' stops i2) = loop_body rec need_stop minlen L frame i1 starts' stops i2.
+Proof.
+  intros H. unfold loop_body_st, loop_body.
+  destruct (match i2 with Some p => i1 <? p | None => false end); [apply H|].
+  destruct (next_stop i1 stops) as [[e r]|].
+  - destruct (inds2orf i1 e frame L); [|reflexivity]. unfold cons_res3. cbn [fst].
+    destruct (e =? L); [reflexivity|]. rewrite H. reflexivity.
+  - destruct need_stop; [reflexivity|]. destruct (inds2orf i1 L frame L); [|reflexivity]. unfold cons_res3. cbn [fst].
+    destruct (L =? L); [reflexivity|]. rewrite H. reflexivity.
+Qed.
+
+Lemma frame_loop_st_fst : forall fuel ns need_stop minlen L frame fs last starts stops i2,
+  fst (frame_loop_st fuel ns need_stop minlen L frame fs last starts stops i2) =
+  frame_loop fuel ns need_stop minlen L frame fs last starts stops i2.
+Proof.
+  induction fuel as [|fuel IH]; intros; [reflexivity|]. cbn [frame_loop_st frame_loop].
+  destruct (negb (loop_cond ns starts i2)); [reflexivity|].
+  destruct (fst (choose_i1 ns fs starts i2) >=? last); [reflexivity|].
+  apply loop_body_st_fst. intros a b c. apply IH.
+Qed.
+
+Lemma lookup_st_none f : forall st, (forall k v, In (k, v) st -> k <> f) -> lookup_st f st = None.
+Proof.
+  induction st as [|[k v] st IH]; intros H; [reflexivity|]. cbn [lookup_st].
+  destruct (k =? f) eqn:E; [exfalso; apply (H k v); [left; reflexivity|lia]|]. apply IH. intros k' v' Hin. apply (H k' v'). right. exact Hin.
+Qed.
+
+Lemma nodupz_cons x r : nodupz (x :: r) = true -> ~ In x r /\ nodupz r = true.
+Proof.
+  cbn [nodupz]. intros H. apply andb_prop in H. destruct H as [H1 H2]. split; [|exact H2].
+  intros Hin. apply negb_true_iff in H1. assert (K : existsb (Z.eqb x) r = true) by (apply existsb_exists; exists x; split; [exact Hin|lia]).
+  congruence.
+Qed.
+
+(* without repeated frames the state is never consulted: the loop is the plain one *)
+Theorem orfs_frames_st_nodup g sw pw ns need_stop minlen s : forall frames st,
+  nodupz frames = true -> (forall k v, In (k, v) st -> ~ In k frames) ->
+  orfs_frames_st g sw pw ns need_stop minlen s st frames = orfs_frames_x g sw pw ns need_stop minlen s frames.
+Proof.
+  induction frames as [|f r IH]; intros st N D; [reflexivity|]. cbn [orfs_frames_st orfs_frames_x].
+  apply nodupz_cons in N. destruct N as [N1 N2].
+  assert (E : fst (frame_pass_st g sw pw ns need_stop minlen s st f) = frame_orfs_x g sw pw ns need_stop minlen s f).
+  { unfold frame_pass_st. rewrite lookup_st_none by (intros k v Hin E; subst k; apply (D f v Hin); left; reflexivity).
+    cbn [fst snd]. rewrite frame_loop_st_fst. reflexivity. }
+  rewrite E. f_equal. apply IH; [exact N2|].
+  intros k v [Hin|Hin].
+  - inversion Hin; subst. exact N1.
+  - intros Hk. apply (D k v Hin). right. exact Hk.
+Qed.
+
 (* ---- rf forms ---------------------------------------------------------------------------------------------------------------- *)
 Theorem rf_forms gap start stop rf ns need_stop minlen s :
   find_orfs_any gap start stop rf ns need_stop minlen s =
   match rf with
   | RAbadstr => XErr (bs "AssertionError"%bs)
   | RAnpint _ | RAfloat | RAnone => XErr (bs "TypeError"%bs)
-  | RAspec r => xres (orfs_frames_x (gap_set gap) (pat_words start) (pat_words stop) ns need_stop minlen s
+  | RAspec r => xres (orfs_frames_st (gap_set gap) (pat_words start) (pat_words stop) ns need_stop minlen s []
                         (match r with RFfwd => [0; 1; 2] | RFbwd => [-1; -2; -3] | RFboth => [0; 1; 2; -1; -2; -3]
                                     | RFint z => [z] | RFtuple l => l end))
-  end.
-Proof. destruct rf; reflexivity. Qed.
+  end /\
+  (forall r, nodupz (frames_of r) = true ->
+     find_orfs_any gap start stop (RAspec r) ns need_stop minlen s =
+     xres (find_orfs_x (gap_set gap) (pat_words start) (pat_words stop) r ns need_stop minlen s)).
+Proof.
+  split; [destruct rf; reflexivity|]. intros r N. unfold find_orfs_any, find_orfs_x. f_equal.
+  apply orfs_frames_st_nodup; [exact N|]. intros k v [].
+Qed.
 
 (* a frame outside -3..2 holds no codon: it contributes nothing when a start is needed, and with need_start='never' exactly
    the chain from its k-th residue over an empty stop list *)
@@ -492,3 +551,78 @@ Qed.
 
 Lemma is_orf_witness : is_orf (bs "AUGCCCTAAUUAGGGCAU"%bs) 0 0 9.
 Proof. unfold is_orf. cbn. repeat split; try tauto; try lia; intros; intuition lia. Qed.
+
+(* ---- is_orf at the level of the TEXT (no matcher, no lists): in-frame codon occurrences by position and prefix ------------- *)
+Definition is_orf_gen (St Sp : Z -> Prop) (a e : Z) : Prop :=
+  St a /\ Sp e /\ a < e /\ (forall e', Sp e' -> e' < e -> e' <= a) /\
+  (forall a', St a' -> a' < a -> exists e', Sp e' /\ a' < e' /\ e' <= a).
+Lemma is_orf_gen_ext (St St' Sp Sp' : Z -> Prop) : (forall x, St x <-> St' x) -> (forall x, Sp x <-> Sp' x) ->
+  forall a e, is_orf_gen St Sp a e <-> is_orf_gen St' Sp' a e.
+Proof.
+  intros H1 H2 a e. unfold is_orf_gen. split; intros (A & B & C & D & E).
+  - split; [apply H1; exact A|]. split; [apply H2; exact B|]. split; [exact C|]. split.
+    + intros e' He'. apply D. apply H2. exact He'.
+    + intros a' Ha' Hlt. destruct (E a' (proj2 (H1 a') Ha') Hlt) as [e' [K1 K2]]. exists e'. split; [apply H2; exact K1|exact K2].
+  - split; [apply H1; exact A|]. split; [apply H2; exact B|]. split; [exact C|]. split.
+    + intros e' He'. apply D. apply H2. exact He'.
+    + intros a' Ha' Hlt. destruct (E a' (proj1 (H1 a') Ha') Hlt) as [e' [K1 K2]]. exists e'. split; [apply H2; exact K1|exact K2].
+Qed.
+
+(* column i of the strand read in frame f begins an in-frame codon of the set ws: i = frame offset (mod 3) and one of the
+   words is a prefix of the strand at i *)
+Definition codon_at (ws : list str) (s : str) (f : Z) (i : nat) : Prop :=
+  (i < length s)%nat /\ Z.of_nat i mod 3 = frame_key f /\ word_at ws (skipn i (strand_str s f)) = true.
+Definition start_col (s : str) (f : Z) (a : Z) : Prop := exists i, a = Z.of_nat i /\ codon_at START_WORDS s f i.
+Definition stop_end (s : str) (f : Z) (e : Z) : Prop := exists j, e = Z.of_nat (j + 3) /\ codon_at STOP_WORDS s f j.
+Definition is_orf_text (s : str) (f : Z) (a e : Z) : Prop := is_orf_gen (start_col s f) (stop_end s f) a e.
+
+Lemma starts_text s f : gapfree s = true -> forall a, In a (frame_starts s f) <-> start_col s f a.
+Proof.
+  intros G a. unfold frame_starts, start_col, codon_at. rewrite in_map_iff. split.
+  - intros [[i e] [E H]]. cbn in E. subst a. apply (proj1 (codons_gapfree_complete s f G i e)) in H. exists i. tauto.
+  - intros [i [E (H1 & H2 & H3)]]. exists (i, (i + 3)%nat). split; [cbn; auto|].
+    apply (proj1 (codons_gapfree_complete s f G i (i + 3)%nat)). tauto.
+Qed.
+Lemma stops_text s f : gapfree s = true -> forall e, In e (frame_stops s f) <-> stop_end s f e.
+Proof.
+  intros G a. unfold frame_stops, stop_end, codon_at. rewrite in_map_iff. split.
+  - intros [[i e] [E H]]. cbn in E. subst a. apply (proj2 (codons_gapfree_complete s f G i e)) in H. exists i.
+    destruct H as (H1 & H2 & H3). subst e. tauto.
+  - intros [i [E (H1 & H2 & H3)]]. exists (i, (i + 3)%nat). split; [cbn; auto|].
+    apply (proj2 (codons_gapfree_complete s f G i (i + 3)%nat)). tauto.
+Qed.
+
+Theorem is_orf_text_iff s f a e : gapfree s = true -> (is_orf s f a e <-> is_orf_text s f a e).
+Proof.
+  intros G. change (is_orf s f a e) with (is_orf_gen (fun a => In a (frame_starts s f)) (fun e => In e (frame_stops s f)) a e).
+  apply is_orf_gen_ext; [apply starts_text; exact G|apply stops_text; exact G].
+Qed.
+
+(* gapped texts: the default list of the degapped sequence is the image of the default list of the gapped one, in order *)
+Theorem default_list_degap s f :
+  default_list (degap s) f = map (ren2 (rbZ (strand_str s f))) (default_list s f).
+Proof.
+  unfold default_list. rewrite frame_starts_degap, frame_stops_degap. rewrite <- (rbZ_0 (strand_str s f)) at 1.
+  apply (spec_default_rename (rbZ (strand_str s f))).
+  - intros x y H. apply rbZ_mono. exact H.
+  - apply frame_starts_res_col.
+  - eapply Forall_impl; [|apply frame_stops_bound]. intros e He. unfold stop_in in He. lia.
+  - lia.
+Qed.
+
+(* so: the ORFs reported for ANY text are, one to one and in order, the text-level ORFs of its degapped sequence *)
+Theorem default_orfs_text s f :
+  (forall a e, In (a, e) (default_list s f) -> is_orf_text (degap s) f (rbZ (strand_str s f) a) (rbZ (strand_str s f) e)) /\
+  (forall a' e', is_orf_text (degap s) f a' e' ->
+     exists a e, In (a, e) (default_list s f) /\ a' = rbZ (strand_str s f) a /\ e' = rbZ (strand_str s f) e).
+Proof.
+  pose proof (degap_gapfree s) as G. split.
+  - intros a e H. apply is_orf_text_iff; [exact G|]. apply is_orf_spec. fold (default_list (degap s) f).
+    rewrite default_list_degap. apply in_map_iff. exists (a, e). split; [reflexivity|exact H].
+  - intros a' e' H. apply is_orf_text_iff in H; [|exact G]. apply is_orf_spec in H. fold (default_list (degap s) f) in H.
+    rewrite default_list_degap in H. apply in_map_iff in H. destruct H as [[a e] [E H]]. exists a, e. split; [exact H|].
+    unfold ren2 in E. cbn [fst snd] in E. inversion E. auto.
+Qed.
+
+Lemma is_orf_text_witness : is_orf_text (bs "CCATGAAATAAC"%bs) 2 2 11.
+Proof. apply is_orf_text_iff; [reflexivity|]. apply is_orf_spec. vm_compute. left. reflexivity. Qed.
